@@ -110,6 +110,14 @@ CHECKS = {
                      "answers.",
                 ref="4 C10", note=NODE_NOTE + "; time-outs ordered logically (late answers withheld until the caller "
                 "returned); configurations avoid the configured-vs-default ambiguity of the statement."),
+    "C11": dict(cat="exploration", tech="lockstep node harness on a virtual clock; timer model (must / must-not / "
+                "either per timer check) compared with frames, connection state and disconnect reason at every tick",
+                text="Exhaustive 1-second timelines of length 7 over {none, traffic, DWA} for small timer values put a "
+                     "traffic event or DWA before, at and after every expiry; random timelines with steps 1..10 s and "
+                     "timer values 1..60 at node and peer level cover horizons of 10x the largest timeout, inbound "
+                     "and outbound, with partial reads and peer DWRs in both ready sub-states.",
+                ref="4 C11", note=NODE_NOTE + "; 'longer than the timeout' is strict; a step in which bytes arrive "
+                "after a deadline already passed accepts either outcome."),
 }
 
 NOT_YET = "check not built yet in this round (planned in DESIGN.md section 4); no claim is made"
